@@ -69,6 +69,26 @@ def reader(rec, op, key, fn):
         return None
 
 
+def backend_same(rec, rng, xr, engine, path, out, p=0.3, **kw):
+    """The xarray backend entry point of a format (`xr.open_dataset(file, engine=...)`) returns what the reader returns."""
+    if out is None or rng.random() > p:
+        return
+    key = "engine=%s%s" % (engine, "".join("|%s" % k for k in sorted(kw)))
+    try:
+        ds2 = xr.open_dataset(path, engine=engine, **kw)
+    except Exception as e:
+        rec.bad("backend_entrypoint", key, {"raised": repr(e)[:400]}, "backend-entrypoint-raises:" + engine)
+        return
+    try:
+        same = set(ds2.variables) == set(out.variables) and all(
+            tuple(ds2[v].dims) == tuple(out[v].dims) and np.array_equal(np.asarray(ds2[v].values), np.asarray(out[v].values), equal_nan=ds2[v].dtype.kind == "f")
+            for v in out.variables)
+    except Exception as e:
+        same = False
+    (rec.ok("backend_entrypoint", key) if same else
+     rec.bad("backend_entrypoint", key, {"variables_reader": sorted(map(str, out.variables)), "variables_backend": sorted(map(str, ds2.variables))}, "backend-entrypoint-differs-from-reader:" + engine))
+
+
 def cart_ref(th, dm, sig):
     """Independent cos^2s spreading normalised over the reader's direction grid (per degree)."""
     dd = th[1] - th[0]
@@ -89,6 +109,8 @@ def do_triaxys(rec, rng, ws, xr, d, kind):
         rec.note("triaxys_files_with_different_initial_frequency")
     arg = paths if nfiles > 1 or rng.random() < 0.5 else paths[0]
     out = reader(rec, "triaxys", key, lambda: ws.read_triaxys(arg))
+    if nfiles == 1:
+        backend_same(rec, rng, xr, "triaxys", paths[0], out)
     if out is None or not times_ok(rec, "triaxys", key, out, t["time"], "m"):
         return
     fo = np.asarray(out["freq"].values, dtype="float64")
@@ -201,6 +223,8 @@ def do_spotter(rec, rng, ws, xr, d, kind):
     key = "%s|dd=%g|records=%d" % (kind, dd, len(t["time"]))
     o1 = reader(rec, "spotter", key, lambda: ws.read_spotter(paths[0], dd=None))
     o2 = reader(rec, "spotter", key, lambda: ws.read_spotter(paths[0], dd=dd))
+    if rng.random() < 0.3:
+        backend_same(rec, rng, xr, "spotter", paths[0], reader(rec, "spotter", key, lambda: ws.read_spotter(paths[0])), p=1.0)
     if o1 is None or o2 is None or not times_ok(rec, "spotter", key, o1, t["time"]) or not times_ok(rec, "spotter", key, o2, t["time"]):
         return
     _buoy(rec, "spotter", key, o1, o2, t, dd, True)
@@ -269,6 +293,7 @@ def do_ww3(rec, rng, ws, xr, d, kind):
             mech = "ww3-station-points-not-on-a-grid-raises"      # defect model: points forced onto a lat x lon grid
         rec.bad("ww3_station", key, {"raised": repr(e)[:300], "lat": t["lat"], "lon": t["lon"], "nloc": nloc}, mech)
         return
+    backend_same(rec, rng, xr, "ww3_station", paths[0], out)
     if not times_ok(rec, "ww3_station", key, out, t["time"]):
         return
     fo, do_ = np.asarray(out["freq"].values, dtype="float64"), np.asarray(out["dir"].values, dtype="float64")
@@ -296,6 +321,7 @@ def do_swan(rec, rng, ws, xr, d, kind):
     paths, t = F.swan(rng, d, opts)
     key = "swan|" + "|".join("%s=%s" % kv for kv in sorted(opts.items()))
     out = reader(rec, "swan", key, lambda: ws.read_swan(paths[0], as_site=True))
+    backend_same(rec, rng, xr, "swan", paths[0], out, as_site=True)
     if out is None:
         return
     if opts["time"] and not times_ok(rec, "swan", key, out, t["time"]):
@@ -394,6 +420,7 @@ def do_xwaves(rec, rng, ws, xr, d, kind):
     paths, t = F.xwaves(rng, d)
     key = "xwaves|nt=%d" % len(t["time"])
     out = reader(rec, "xwaves", key, lambda: ws.read_xwaves(paths[0]))
+    backend_same(rec, rng, xr, "xwaves", paths[0], out)
     if out is None or not times_ok(rec, "xwaves", key, out, t["time"]):
         return
     fo, do_ = np.asarray(out["freq"].values, dtype="float64"), np.asarray(out["dir"].values, dtype="float64")
